@@ -31,6 +31,22 @@ add("C20", ENGINE_W, "exploration", "deterministic simulation: conservation law 
     "A recording metric factory observes seeded histories in sequential, concurrent (seeded scheduler) and fail-stop-fault batches; per run and log the four counters must equal the counts of actual outcomes, so a counter moved before the write or on a wrong path shows up when a Set fails or loses a race.",
     BASE_NOTE, "DESIGN.md 5/C20")
 
+add("C02", ENGINE_W, "exploration", "deterministic simulation: byzantine mutators over signed checkpoints, multi-log shared-key configurations, seeded races; authenticity invariant after every step",
+    "Seeded byzantine submissions (bit flips, truncations, line and signature-block edits, origin rewrites, key-hash forgeries, cross-log replays under shared keys, unknown IDs), sequential and racing a valid submission under the seeded scheduler; one-sided invariant: whatever is stored or returned for an ID is a text the harness signed with that ID's key under that ID's origin, and unknown IDs never reach storage.",
+    BASE_NOTE + " Ed25519 unforgeability.", "DESIGN.md 5/C02")
+add("C04", ENGINE_W, "exploration", "deterministic simulation: fake clock jumps between and inside updates, harness note verifier",
+    "Seeded first-use/growth/refresh histories with 1..3 witness keys, decorated notes, and clock jumps of 1 ms..30 days between updates and while an update is parked at a storage seam; every accepted result and read is verified with the harness's own note/cosignature code, timestamps against the call window on the fake clock, and the read right after an accepted update must return the same bytes.",
+    BASE_NOTE, "DESIGN.md 5/C04")
+add("C05", ENGINE_W, "exploration", "deterministic simulation: seeded schedules at storage-operation granularity + porcupine linearizability + commit-sequence invariants",
+    "2..4 clients race updates and reads on the real witness over the in-memory store and single-connection SQLite; the seeded scheduler (uniform, PCT, hold-one) owns every interleaving; histories stamped with event numbers are checked by porcupine against the sequential model and by direct invariants on the commit order. Canonical 2-client shapes are sampled until their interleavings are (nearly) all reached and the count is reported.",
+    BASE_NOTE + " porcupine v1.3.0; Unknown results are counted as inconclusive, never reported.", "DESIGN.md 5/C05")
+add("C08", ENGINE_W, "exploration", "deterministic simulation: adversarial prior histories then honest probes (bounded liveness: progress in one step)",
+    "After arbitrary generated histories (refused forgeries, decorations up to and beyond the note format's line limit, size-0 first checkpoints) an honest log's next step must be accepted at once. Two genuine defects (F1, F2) are listed in known_findings.json by their specific signatures; any other refusal of an honest probe is a VIOLATION.",
+    BASE_NOTE, "DESIGN.md 5/C08, 6")
+add("C12", ENGINE_W, "exploration", "deterministic simulation: seeded interleaving of per-log histories vs each history replayed alone (differential), config loader check",
+    "Per-log histories over 2..5 logs (shared keys, cross-log replays) are interleaved by the seeded scheduler at storage-operation granularity and each is replayed alone in a fresh world; verdict sequences and final bytes must agree per log; duplicate-origin configurations must be refused by the real loader. The cross-component ID agreement is exercised by the Main-level, bastion and distributor checks.",
+    BASE_NOTE, "DESIGN.md 5/C12")
+
 NOT_YET = {}
 
 
